@@ -893,6 +893,10 @@ impl<'a> Iso<'a> {
                 }
             }
         }
+        // functions placed so far are placed by references from exports, the
+        // start section, element segments ...; everything placed from here on
+        // is placed by content, directly or as a callee of such a function
+        let witnessed: std::collections::HashSet<u32> = self.funcs.fwd.keys().copied().collect();
         for x in 0..a.n_funcs() {
             if !self.funcs.fwd.contains_key(&x) {
                 let cands: Vec<u32> = (0..b.n_funcs()).filter(|y| !self.funcs.rev.contains_key(y)).collect();
@@ -940,6 +944,10 @@ impl<'a> Iso<'a> {
             // content-identical twin, the pairing of all of them is arbitrary
             let all: Vec<u32> = self.leftover_funcs.clone();
             self.ambiguous_funcs.extend(all);
+            // ... and so is the placement of the functions that were only
+            // reached through them (mutually recursive twins)
+            let dragged: Vec<u32> = self.funcs.fwd.keys().copied().filter(|x| !witnessed.contains(x)).collect();
+            self.ambiguous_funcs.extend(dragged);
         }
         // type sections as sets of signatures
         let sa: std::collections::BTreeSet<String> = a.types.iter().map(|t| format!("{:?}", t)).collect();
@@ -1085,6 +1093,7 @@ impl<'a> Iso<'a> {
             }
         }
         // remaining output entities need a preimage
+        let witnessed: std::collections::HashSet<u32> = self.funcs.fwd.keys().copied().collect();
         for y in 0..b.n_funcs() {
             if !self.funcs.rev.contains_key(&y) {
                 let cands: Vec<u32> = (0..a.n_funcs()).filter(|x| !self.funcs.fwd.contains_key(x)).collect();
@@ -1295,6 +1304,8 @@ impl<'a> Iso<'a> {
         if !self.ambiguous_funcs.is_empty() {
             let all: Vec<u32> = self.leftover_funcs.clone();
             self.ambiguous_funcs.extend(all);
+            let dragged: Vec<u32> = self.funcs.fwd.keys().copied().filter(|x| !witnessed.contains(x)).collect();
+            self.ambiguous_funcs.extend(dragged);
         }
         // output types must be signatures of the input
         let sa: std::collections::BTreeSet<String> = a.types.iter().map(|t| format!("{:?}", t)).collect();
